@@ -141,6 +141,29 @@ def run(tier, seed):
             if ctl.max_inflight < min(k, widest(plan)):
                 ctx.divergence("the framework kept fewer bodies in flight than the limit allows", {"shape": shape, "k": k, "max": ctl.max_inflight})
     ctx.bump("adversarial_runs", n_runs)
+    # ---- a LOOP under a limit: observers outside the cycle compete with the cycle's nodes for the slots in every step; the
+    # limited run must still be the unlimited run (same values, every node invoked on the same arguments), and stay bounded
+    loop = IR.prog("top", [IR.func("bump", ["count"], ["count"], is_async=True),
+                           IR.route("again", ["count"], ["bump", "END"], [["bump"], ["bump"], ["END"]]),
+                           IR.func("obs1", ["count"], ["seen1"], is_async=True), IR.func("obs2", ["count"], ["seen2"], is_async=True),
+                           IR.func("obs3", ["count", "k0"], ["seen3"], is_async=True)], max_iter=30)
+    lj = gen.job(0, loop, [["count", "in.count"], ["k0", "in.k0"]], mode="async")
+    base, bctl = run_with(lj, [], None, 0)
+    base_calls = sorted((c["path"], json.dumps(c["args"])) for c in base.get("calls", []))
+    for k in (1, 2, 3):
+        for name, pick in policies(rng, 2):
+            o, ctl = run_with(lj, [], pick, k)
+            ctx.count()
+            ctx.traces()
+            wit = {"job": lj, "shape": "loop+observers", "k": k, "policy": name, "max_inflight": ctl.max_inflight, "status": o["status"],
+                   "values": o.get("values"), "unlimited_values": base.get("values")}
+            if o["status"] == "deadlock":
+                ctx.violation("deadlock", wit, f"loop with observers did not terminate under max_concurrency={k}, policy {name}")
+            elif ctl.max_inflight > k:
+                ctx.violation("bound-exceeded", wit, f"{ctl.max_inflight} node functions executing with max_concurrency={k} (loop with observers, policy {name})")
+            elif o["status"] != base["status"] or o["values"] != base["values"] or sorted((c["path"], json.dumps(c["args"])) for c in o["calls"]) != base_calls:
+                ctx.violation("result-differs-from-unlimited", wit, f"loop with observers, max_concurrency={k}, policy {name}: status {o['status']} values {o['values']}; unlimited {base['status']} {base['values']} (or the invocations differ)")
+    ctx.bump("loop_runs", 9)
     # ---- call level: TLC-generated histories of top-level calls sharing one context (spec/Limiter.tla)
     from .. import limiter
     caught = limiter.spec_mutants()
